@@ -73,7 +73,32 @@ def h_dir_cbc_authentic():
         check(not out.returned, "dir+CBC-HS: any other tag (truncated, extended, altered) is rejected")
 
 
-HARNESSES = [h_dir_gcm_authentic, h_kw_gcm_authentic, h_dir_cbc_authentic]
+def h_direct_modes_refuse_encrypted_key():
+    """A non-empty encrypted key in a direct mode (dir, ECDH-ES direct key agreement) never yields plaintext."""
+    mode = sym_choice("mode", ["dir", "ECDH-ES/ec", "ECDH-ES/okp"])
+    p = sym_bytes("p")
+    if mode == "dir":
+        kenc, kb = oct_key_of_len("k", 16)
+        kdec = kenc
+        hdr = {"alg": "dir", "enc": "A128GCM"}
+    elif mode == "ECDH-ES/ec":
+        kenc, kdec = make_key("ec", "E", False, "secp256r1"), make_key("ec", "E", True, "secp256r1")
+        hdr = {"alg": "ECDH-ES", "enc": "A128GCM"}
+    else:
+        kenc, kdec = make_key("okp", "E", False, "x25519"), make_key("okp", "E", True, "x25519")
+        hdr = {"alg": "ECDH-ES", "enc": "A128GCM"}
+    t = jwe.encrypt_compact(hdr, p, kenc, ["dir", "ECDH-ES", "A128GCM"])
+    parts = t.split(".")
+    ek = sym_bytes("ek")
+    assume(len(ek) > 0)
+    t2 = parts[0] + "." + spec_b64u(ek).decode("ascii") + "." + parts[2] + "." + parts[3] + "." + parts[4]
+    out = call(jwe.decrypt_compact, t2, kdec, ["dir", "ECDH-ES", "A128GCM"])
+    check(not out.returned, "a non-empty encrypted key in a direct mode is rejected, never a returned plaintext")
+
+
+h_direct_modes_refuse_encrypted_key.seeds = [{"mode": 0, "k": b"0123456789abcdef", "p": b"attack", "ek": b"\xde\xad"},
+                                             {"mode": 1, "p": b"attack", "ek": b"\xde\xad"}, {"mode": 2, "p": b"attack", "ek": b"\xde\xad"}]
+HARNESSES = [h_dir_gcm_authentic, h_kw_gcm_authentic, h_dir_cbc_authentic, h_direct_modes_refuse_encrypted_key]
 
 
 # ---- seeds for the native witness search: valid tokens and the tamperings named by the statement ----
@@ -123,5 +148,5 @@ def _seed(rnd):
     return {"enc": i, "k": k, "hb": hb, "iv": iv, "ct": ct, "tag": tag}
 
 
-for _h in HARNESSES:
+for _h in (h_dir_gcm_authentic, h_kw_gcm_authentic, h_dir_cbc_authentic):
     _h.seed_fn = _seed
